@@ -192,8 +192,7 @@ mod protected {
                 where
                     E: Error,
                 {
-                    Ok(HeapBytes::from_slice_into_locked(v)
-                        .expect("couldn't copy slice into locked bytes"))
+                    HeapBytes::from_slice_into_locked(v).map_err(Error::custom)
                 }
             }
 
@@ -247,8 +246,7 @@ mod protected {
                     if v.len() != LENGTH {
                         Err(Error::invalid_length(v.len(), &stringify!(LENGTH)))
                     } else {
-                        Ok(HeapByteArray::<LENGTH>::from_slice_into_locked(v)
-                            .expect("couldn't copy slice into locked bytes"))
+                        HeapByteArray::<LENGTH>::from_slice_into_locked(v).map_err(Error::custom)
                     }
                 }
             }
